@@ -81,10 +81,11 @@ def handle (line : String) : String :=
       answer (showList (fun (e : Entry) =>
         s!"{stringToHex (relStr e.path)}:{e.node.payload.length}:{showBool e.node.isSymlink}") es)
     | _, _, _ => badCase "walk fields"
-  | ["dir", igd, sizeMax, root, tree] =>
-    match parseStrList igd, sizeMax.toNat?, hexToString? root, parseTree tree with
-    | some ignoreDirs, some sm, some rootAbs, some t =>
-      let ic := mkIc sm rootAbs
+  | ["dir", igd, sizeMax, large, root, tree] =>
+    match parseStrList igd, sizeMax.toNat?, parseStrList large, hexToString? root, parseTree tree with
+    | some ignoreDirs, some sm, some largeNames, some rootAbs, some t =>
+      -- `Options.IgnoreSizeMax` (doublestar patterns) is a parameter of the model: the harness lists the names it accepts
+      let ic : IdxCfg := { mkIc sm rootAbs with largeOk := fun nm => largeNames.contains nm }
       let docs := indexArg ignoreDirs ic t
       let model := "ok " ++ renderDocs (docs.map fun d => renderDoc d.name d.stored)
       match fields impl with
@@ -96,7 +97,7 @@ def handle (line : String) : String :=
           if checkDir expected (parseDocs idocs) then answer model else specFail model "dir-docs"
         else answer model
       | _ => badCase "dir impl"
-    | _, _, _, _ => badCase "dir fields"
+    | _, _, _, _, _ => badCase "dir fields"
   | ["ign", file, path] =>
     match hexToBytes? file, hexToString? path with
     | some f, some p => answer (showBool (ignoreMatch (parseIgnoreFile (bytesToChars f)) p))
